@@ -368,6 +368,16 @@ class SymReal:
         return SymReal(r)
 
     def _cmp(s, o, op):
+        if isinstance(o, float) and o in (float("inf"), float("-inf")):
+            # a real compared with an infinity: decided
+            return bool(op(0.0, o))
+        if hasattr(o, "item") and not is_sym(o):
+            try:
+                ov = o.item()
+                if isinstance(ov, float) and ov in (float("inf"), float("-inf")):
+                    return bool(op(0.0, ov))
+            except Exception:
+                pass
         return SymBool(op(s.t, R(o)))
 
     def __lt__(s, o):
